@@ -3,14 +3,15 @@ import copy
 import itertools
 
 from .. import alphabets as A
+from .. import spec as S
 from ..driver import execute
 from ..monitors.irrigation import C13Irrigation
-from ..runner import result_from_ctx
+from ..runner import result_from_ctx, empty_result
 from ._water import scenario_facts
 
 PID = "C13"
 LEVEL = "model_checking"
-WITNESSES = ["off_season_day", "depletion_estimate_checked", "stage_after_delayed_germination", "irrigated_day", "threshold_exceeded_day", "threshold_stage_2", "threshold_stage_3", "threshold_stage_4",
+WITNESSES = ["off_season_day", "edited_object_reused", "depletion_estimate_checked", "stage_after_delayed_germination", "irrigated_day", "threshold_exceeded_day", "threshold_stage_2", "threshold_stage_3", "threshold_stage_4",
              "interval_day", "scheduled_application", "scheduled_date_outside_season", "schedule_capped_by_daily_max",
              "net_irrigation_day", "seasonal_cap_binding", "daily_max_binding"]
 NONTRIVIAL = [w for w in WITNESSES if w != "off_season_day"]
@@ -64,6 +65,11 @@ def scenarios(tier, seed=0):
             spec["crop"] = {"name": "MaizeGDD", "planting": "05/01", "harvest": "08/30", "scale": None, "gddscale": 0.15, "kw": {}}
         spec["irr"] = irr_spec(1, {"SMT": smt}, None, 25, 10000, 100)
         yield {"kind": "spec", "spec": spec, "label": ["delayed-germination", thermal, smt, word]}
+    # the same IrrigationManagement object used by a second model after the user edited one of its settings (trying several
+    # schedules / thresholds / depths in a loop): the second model must honour the NEW setting
+    for edit in ("schedule", "smt", "depth", "interval", "maxirr"):
+        for word in ("dry", "normal"):
+            yield {"kind": "reuse", "edit": edit, "word": word}
     if tier != "quick":
         # starts after planting / off-season simulated / partial wetting / full-length crops
         for (method, kw, sch), off, wet in itertools.product(STRATS, [True], [100, 30]):
@@ -95,7 +101,56 @@ def build(scn):
     return spec
 
 
+REUSE = {   # edit -> (first irrigation spec, attribute to overwrite on the live object, second irrigation spec)
+    "schedule": ({"method": 3, "kw": {"MaxIrr": 30}, "schedule": "inseason"}, "Schedule", {"method": 3, "kw": {"MaxIrr": 30}, "schedule": "big"}),
+    "smt": ({"method": 1, "kw": {"SMT": [80, 60, 40, 20]}}, "SMT", {"method": 1, "kw": {"SMT": [30, 50, 70, 90]}}),
+    "depth": ({"method": 5, "kw": {"depth": 8}}, "depth", {"method": 5, "kw": {"depth": 3}}),
+    "interval": ({"method": 2, "kw": {"IrrInterval": 3}}, "IrrInterval", {"method": 2, "kw": {"IrrInterval": 5}}),
+    "maxirr": ({"method": 1, "kw": {"SMT": [70] * 4, "MaxIrr": 25}}, "MaxIrr", {"method": 1, "kw": {"SMT": [70] * 4, "MaxIrr": 6}}),
+}
+
+
+def run_reuse(scn):
+    """History: model 1 runs with the object as first configured; the user then overwrites one public attribute of the SAME object
+    and builds model 2 (same period) from it.  Model 2 is monitored against the edited configuration."""
+    import datetime as dt
+    from ..driver import run_plain
+
+    first, attr, second = REUSE[scn["edit"]]
+    base = A.to_spec(A._b(crop="maize.2", iwc="WP", word=scn["word"], win="w2", soil="SandyLoam"))
+    L = A.crop_length_days(base["crop"])
+    y = A._d(base["start"]).year
+    mm, dd = (int(x) for x in base["crop"]["planting"].split("/"))
+    pds = [dt.datetime(y + i, mm, dd) for i in range(2)]
+
+    def full(ir):
+        ir = copy.deepcopy(ir)
+        return A.resolve_irr(ir, pds, L) if ir["method"] == 3 else ir
+
+    spec1 = dict(base, irr=full(first))
+    spec2 = dict(base, irr=full(second))
+    ent = S.make_entities(spec1)
+    t1, a1, _ = run_plain(spec1, entities=ent)
+    if a1:
+        res = empty_result()
+        res["aborted"] = a1
+        return res
+    obj = ent["irrigation_management"]
+    new_obj = S.make_irr(spec2["irr"])
+    setattr(obj, attr, getattr(new_obj, attr))     # the user's edit of a public attribute
+    ent2 = S.make_entities(spec2)
+    ent2["irrigation_management"] = obj
+    ctx = execute(spec2, [C13Irrigation()], pid=PID, timeout=120, entities=ent2)
+    ctx.hit("edited_object_reused")
+    for v in ctx.violations:
+        v["facts"]["sig"] = [v["clause"], "reuse", scn["edit"]]
+        v["facts"]["history"] = "object reused after editing " + attr
+    return result_from_ctx(ctx)
+
+
 def run(scn):
+    if scn.get("kind") == "reuse":
+        return run_reuse(scn)
     spec = build(scn)
     ctx = execute(spec, [C13Irrigation()], pid=PID, timeout=120)
     facts = scenario_facts(spec)
